@@ -1037,7 +1037,9 @@ func (w *World) createArchetype(node *archNode, target Entity, forStorage bool) 
 // Returns all archetypes that match the given filter.
 func (w *World) getArchetypes(filter Filter) []*archetype {
 	if cached, ok := filter.(*CachedFilter); ok {
-		return w.filterCache.get(cached).Archetypes.pointers
+		// Return a copy: batch operations retire archetypes while iterating the result,
+		// which removes them from the cached list.
+		return append([]*archetype{}, w.filterCache.get(cached).Archetypes.pointers...)
 	}
 
 	arches := []*archetype{}
